@@ -98,6 +98,35 @@ CHECKS["C17"] = dict(
     note="Trusted: reference validator (codes from server_error.go / Engine.IO v4); vsched semantics. Concurrent forced collisions are observations only (outside the statement).",
     design="3/C17")
 
+CHECKS["C04"] = dict(
+    engine="vsched",
+    category="model_checking",
+    technique="exhaustive enumeration of membership matrices x (T,E), explicit-state BFS over membership histories on the real adapter and the real server against a reference set model (with a differential oracle between histories reaching the same state), and exhaustive interleaving exploration of a broadcast racing membership changes under interval semantics",
+    text="Adapter level: all 2^9 membership matrices of 3 sockets x 3 rooms (plus variants) x all 8x8 (T,E) x {Broadcast, Sockets, FetchSockets, operator paths} against {s | (T empty or rooms(s) meets T) and rooms(s) disjoint E}, each recipient exactly once; BFS over AddAll/Delete/DeleteAll/AddSockets/DelSockets/DisconnectSockets histories covering the whole 9^3 state space with index invariants and the model in every state. Server level: 3 real server sockets over harness-implemented Engine.IO sockets, histories of Join/Leave/Disconnect/client DISCONNECT/SocketsJoin/SocketsLeave/DisconnectSockets, every (T,E) through the namespace and through each socket (sender never reached, disconnected socket in no room). Concurrent: one Broadcast(T,E) racing 1-2 membership changes, all interleavings, interval oracle.",
+    note="Trusted: reference set model; vsched semantics; deterministic golang-set iteration in the overlay (thread-unsafe sets only). Known finding: a socket that left its own-id room receives its own broadcasts (same as the Node.js reference).",
+    design="3/C04")
+CHECKS["C08"] = dict(
+    engine="vsched",
+    category="model_checking",
+    technique="bounded exhaustive enumeration of broadcast histories x disconnect points x reconnection times on the real session-aware adapter in virtual time (controlled scheduler), against a reference log model with a three-valued expectation; plus server-level and Go-client replays",
+    text="Adapter level: every history of length <= 3 (quick) / <= 4 + text-only 5 (thorough) over 16 emit kinds (to all / room / room except room / except the session / direct / other sid / with ack id, text and binary), 10 s or 35 s apart, every disconnect point k, reconnection 1/59/61/119/121/181 s after the disconnect (0-2 passes of the production 60 s cleaner, both sides of the 120 s window), two sessions recovering from the same log. Expectation: must recover / must not / may either (offset packet itself older than the window); oracle: recovered => persisted sid and rooms and exactly the model's missed packets in order, no duplicate, no gap. Server level over harness-implemented Engine.IO sockets: same sid/pid, replayed frames decode to exactly the missed events with byte-identical attachments, unknown pid/offset or expiry => fresh session. Go client over the in-process link: Recovered() and exactly the missed events once, arguments intact, for six handler signatures.",
+    note="Trusted: reference log model (packets with an ack id are not logged, as in the reference implementation); vsched virtual clock. Never alarms in the may-either zone.",
+    design="3/C08")
+CHECKS["C13"] = dict(
+    engine="seq",
+    category="exploration",
+    technique="exhaustive enumeration of packet-size vectors x maxPayload through the real client batcher; full limit x size x framing matrices against real servers (ServeHTTP with a counting body, real loopback HTTP and WebSocket) and the real WebTransport read loop",
+    text="Batcher: every vector of 1..5(6) packets with sizes {0,1,2,3,4,6,9} (text/binary in the first two positions) x every maxPayload 0..size+8 through the real clientSocket.Send with a recording polling transport: batches concatenate to the input and every multi-packet batch fits maxPayload. Polling inbound: limit {16, 1000, default, disabled} x body sizes around the limit and around 32/64 KiB x {Content-Length, chunked, under-declared}: over the limit => refused, not delivered, bytes read bounded, session closed; within => 200 and delivered. WebSocket both directions over real loopback with a barrier message; WebTransport read loop with limit x length x chunking patterns.",
+    note="Plain build, real time for the loopback parts (verdicts wait for delivery/close with a deadline; foreign traffic on recycled ports is filtered by session id). Limits after a polling->websocket upgrade and binary polling bodies are not run.",
+    design="3/C13")
+CHECKS["C14"] = dict(
+    engine="vsched",
+    category="model_checking",
+    technique="fault enumeration in exact virtual time (every black-hole moment x flavour x (pingInterval,pingTimeout)) on the real Engine.IO client/server pair under the controlled scheduler, plus deviation-bounded exploration of live and dead peers",
+    text="Dead peer: for all 9 (I,T) in {1,2,3}s^2 the in-process link turns into a black hole before each request index, mid-request, and at every quarter-interval instant (both directions / responses only / with application traffic in flight): both sides must report ping timeout at virtual time <= t_blackhole + I + T and never earlier than the last answered heartbeat + T (exact: virtual time has no slack). Live peer: idle and with a sender on either side at phase offsets {0, I/4, I/2, 3I/4} for 5(I+T), explored with thread-choice deviations: never any close, all messages delivered. Narrow: the real server socket against a hand-played client withholding pong k.",
+    note="Trusted: vsched virtual clock (early-timer deviations off); polling transport only (websocket / during-upgrade need the duplex rig of C07). Duplicated pongs and link latency are recorded as observations, not verdicts.",
+    design="3/C14")
+
 NOT_APPLICABLE = {
 }
 
